@@ -4,7 +4,7 @@
 # seeds can be tried at once and /repo is never touched.  Prints "<seed> <exit code> <violation lines>".
 SID=$1; TIER=${2:-quick}
 SEED=/verif/seeded/$SID
-P=$(python3 -c "import json;print(json.load(open('$SEED/meta.json'))['property'])")
+P=${3:-$(python3 -c "import json;print(json.load(open('$SEED/meta.json'))['property'])")}
 WT=$(mktemp -d /tmp/spw_XXXXXX)
 git -C /repo worktree add -q --detach "$WT" HEAD || exit 2
 if ! git -C "$WT" apply "$SEED/patch.diff" 2>/dev/null; then echo "$SID PATCH-DOES-NOT-APPLY"; git -C /repo worktree remove --force "$WT"; exit 2; fi
